@@ -117,6 +117,7 @@ inductive DOp where
   | op (o : Op)
   | poke (name : String) (st : Status)
   | call (name : String) (fn : String)
+  | xreq (cid : String) (j : JVal) (cls : String)
 
 def status : P Status := do
   let t ← tok
@@ -131,6 +132,7 @@ def dop : P DOp := fun toks =>
   match toks with
   | "poke" :: rest => (do let n ← str; let st ← status; pure (DOp.poke n st)) rest
   | "call" :: rest => (do let n ← str; let f ← tok; pure (DOp.call n f)) rest
+  | "xreq" :: rest => (do let cid ← tok; let j ← jval 64; let c ← tok; pure (DOp.xreq cid j c)) rest
   | _ => (do let o ← op; pure (DOp.op o)) toks
 
 /-- a direct call of a watcher method, run like a stimulus: the coroutine gets a top-level future whose only
@@ -173,6 +175,13 @@ def stepD (d : DOp) : M Unit :=
     match r with
     | some u => callFn u fn
     | none => emit (.raised "NoWatcher")
+    stepTail
+  | .xreq cid j cls => do
+    -- a request for a registered command whose `execute` raises an exception of class `cls`
+    let s0 ← getS
+    if s0.blocked then pure () else
+    updK Kernel.beginStep
+    dispatchRaised (some cid) j (excOfClass cls)
     stepTail
 
 def scenario : P (State × List DOp) := do
